@@ -5,7 +5,9 @@ package c10
 
 import (
 	"bytes"
+	stded "crypto/ed25519"
 	"fmt"
+	"sort"
 	"testing"
 
 	"github.com/go-i2p/common/certificate"
@@ -27,7 +29,7 @@ import (
 	"verif/internal/model"
 )
 
-const rule = "part 1 (exhaustive): every signing-type code and every crypto-type code 0..65535 through every size lookup (two maps + constants in key_certificate, GetKeySizes/GetSigningKeySize/GetCryptoKeySize/GetSignatureSize, KeyCertificate.{SignatureSize,SigningPublicKeySize,CryptoSize,CryptoPublicKeySize}, signature.SignatureSize, offline_signature.{SigningPublicKeySize,SignatureSize}) plus behavioural probes (LeaseSet2.Validate on a key of that type with right/wrong length, ReadEncryptedLeaseSet and ReadOfflineSignature framing with that type): all answers must agree with each other, and with the specification table for the codes it defines (reserved codes: mutual agreement only). (key certificates for every code are also obtained through NewKeyCertificateWithTypes, the certificate builder and the parser and must declare that code, serialise to it and answer like the tables; the leaseset key validation is probed with the key alone, in second position after an X25519 and after an ElGamal key, and in first position before another key) part 2 (generated): identities of every supported (signing, crypto) pair with arbitrary key, padding and certificate bytes through the parser, ReadDestination / ReadRouterIdentity, the constructor and the two key-type-specific readers (which must accept their own pair and, for whatever else they accept, obey the same layout): key bytes at [0,cs) and [384-ss,384), padding exactly between, declared sizes = lengths of the keys returned. Non-trivial: code known to at least one table, or an identity with non-empty padding; distinct by code / identity bytes."
+const rule = "part 1 (exhaustive): every signing-type code and every crypto-type code 0..65535 through every size lookup (two maps + constants in key_certificate, GetKeySizes/GetSigningKeySize/GetCryptoKeySize/GetSignatureSize, KeyCertificate.{SignatureSize,SigningPublicKeySize,CryptoSize,CryptoPublicKeySize}, signature.SignatureSize, offline_signature.{SigningPublicKeySize,SignatureSize}) plus behavioural probes (LeaseSet2.Validate on a key of that type with right/wrong length, ReadEncryptedLeaseSet and ReadOfflineSignature framing with that type, NewEncryptedLeaseSet with a blinded key of that type at the table's length and at every other table length +-1 (the value carries an Ed25519 transient key, so the constructor can sign whatever the blinded type is)): all answers must agree with each other, and with the specification table for the codes it defines (reserved codes: mutual agreement only). (key certificates for every code are also obtained through NewKeyCertificateWithTypes, the certificate builder and the parser and must declare that code, serialise to it and answer like the tables; the leaseset key validation is probed with the key alone, in second position after an X25519 and after an ElGamal key, and in first position before another key) part 2 (generated): identities of every supported (signing, crypto) pair with arbitrary key, padding and certificate bytes through the parser, ReadDestination / ReadRouterIdentity, the constructor and the two key-type-specific readers (which must accept their own pair and, for whatever else they accept, obey the same layout): key bytes at [0,cs) and [384-ss,384), padding exactly between, declared sizes = lengths of the keys returned. Non-trivial: code known to at least one table, or an identity with non-empty padding; distinct by code / identity bytes."
 
 func TestMain(m *testing.M) { ev.Main(m, "C10", rule) }
 
@@ -191,7 +193,16 @@ func checkSigCode(code int, r *ev.Rec) error {
 		if err != nil || len(rem) != 4 || !bytes.Equal(els.BlindedPublicKey(), e.Blinded) {
 			return fmt.Errorf("signing type %d: ReadEncryptedLeaseSet framing disagrees with the tables (err %v, rem %d)", code, err, len(rem))
 		}
+		// constructor-side key validation of the encrypted leaseset: the blinded key of this type is
+		// accepted at the table's length and at no other (the outer signature is made by an
+		// Ed25519 transient key, so that the constructor can sign whatever the blinded type is)
+		if err := elsCtorProbe(code, pub, sig); err != nil {
+			return err
+		}
 	} else {
+		if els, err := newELS(code, 32, 64); err == nil {
+			return fmt.Errorf("signing type %d unknown to the tables but NewEncryptedLeaseSet accepts it (%d-byte key stored)", code, len(els.BlindedPublicKey()))
+		}
 		if _, _, err := signature.ReadSignature(make([]byte, 600), code); err == nil {
 			return fmt.Errorf("signing type %d unknown to the tables but ReadSignature accepts it", code)
 		}
@@ -209,6 +220,54 @@ func checkSigCode(code int, r *ev.Rec) error {
 	}
 	if known || specKnown {
 		r.NonTrivialStr(CodeCase{"sig", code}, "sig", fmt.Sprint(code))
+	}
+	return nil
+}
+
+var elsTransient = model.NewSignKey(7, 41)
+
+// newELS calls NewEncryptedLeaseSet for a blinded key of the given type and length; the value
+// carries an offline block (transient Ed25519 key, block signature of sigLen bytes), which is
+// what makes the constructor sign with Ed25519 whatever the blinded type is.
+func newELS(code, keyLen, sigLen int) (*encrypted_leaseset.EncryptedLeaseSet, error) {
+	off, err := offline_signature.NewOfflineSignature(1<<31, 7, elsTransient.Pub, model.Fill(sigLen, 2), uint16(code))
+	if err != nil {
+		return nil, fmt.Errorf("offline block: %w", err)
+	}
+	return encrypted_leaseset.NewEncryptedLeaseSet(uint16(code), model.Fill(keyLen, 3), 5, 9, 1, &off, model.Fill(61, 4), stded.PrivateKey(elsTransient.Priv))
+}
+
+// keyLengths: every public-key length of the specification's table and their neighbours.
+var keyLengths = func() []int {
+	seen := map[int]bool{}
+	var out []int
+	for _, n := range model.SigPubLen {
+		for _, d := range []int{-1, 0, 1} {
+			if !seen[n+d] && n+d > 0 {
+				seen[n+d] = true
+				out = append(out, n+d)
+			}
+		}
+	}
+	sort.Ints(out)
+	return out
+}()
+
+func elsCtorProbe(code, pub, sig int) error {
+	els, err := newELS(code, pub, sig)
+	if err != nil {
+		return fmt.Errorf("signing type %d: known with a %d-byte public key, yet NewEncryptedLeaseSet refuses a blinded key of that length: %v", code, pub, err)
+	}
+	if len(els.BlindedPublicKey()) != pub {
+		return fmt.Errorf("signing type %d: NewEncryptedLeaseSet stores a %d-byte blinded key, the tables say %d", code, len(els.BlindedPublicKey()), pub)
+	}
+	for _, n := range keyLengths {
+		if n == pub {
+			continue
+		}
+		if _, err := newELS(code, n, sig); err == nil {
+			return fmt.Errorf("signing type %d: known with a %d-byte public key, yet NewEncryptedLeaseSet accepts a blinded key of %d bytes", code, pub, n)
+		}
 	}
 	return nil
 }
